@@ -6,7 +6,7 @@ V = '/verif'
 needs = json.load(open(f'{V}/tools/seed_needs.json'))
 head = subprocess.check_output(['git', '-C', '/repo', 'log', '-1', '--format=%h']).decode().strip()
 rows = []
-WAVE = {'w1': ({'A': 'A', 'B': 'B'}, '/tmp/seedout', 1), 'w2': ({'A': 'C', 'B': 'D'}, '/tmp/seedout2', 2), 'w3': ({'A': 'E', 'B': 'F'}, '/tmp/seedout3', 3), 'w4': ({'A': 'G', 'B': 'H'}, '/tmp/seedout4', 4), 'w5': ({'A': 'I', 'B': 'J'}, '/tmp/seedout5', 5)}
+WAVE = {'w1': ({'A': 'A', 'B': 'B'}, '/tmp/seedout', 1), 'w2': ({'A': 'C', 'B': 'D'}, '/tmp/seedout2', 2), 'w3': ({'A': 'E', 'B': 'F'}, '/tmp/seedout3', 3), 'w4': ({'A': 'G', 'B': 'H'}, '/tmp/seedout4', 4), 'w5': ({'A': 'I', 'B': 'J'}, '/tmp/seedout5', 5), 'w6': ({'A': 'K', 'B': 'L'}, '/tmp/seedout6', 6)}
 for d in sorted(glob.glob('/tmp/final/w?-C??-?')):
     tag, pid, v = os.path.basename(d).split('-')
     name = f'{pid}-{WAVE[tag][0][v]}'
